@@ -37,6 +37,9 @@ func c01Services() []svcSpec {
 		if s.Key == "echo" {
 			continue // the TCP echo service is always present as the liveness probe port
 		}
+		if hostileOriginalOnly && protoLike[s.Key] != "" {
+			continue
+		}
 		out = append(out, s)
 	}
 	return out
@@ -107,7 +110,7 @@ func buildHostileScenario(r *Rng, idx int, maxConns int, endings []string) *Scen
 	var classes []string
 	for si, k := range keys {
 		s := svcByKey(k)
-		if !s.UDP && protoLike[s.Key] == "" && s.Key != "https" && r.Chance(0.12) {
+		if !hostileOriginalOnly && !s.UDP && protoLike[s.Key] == "" && s.Key != "https" && r.Chance(0.12) {
 			// the port is shared: a service with a payload detector stands in front of this one (the server peeks at
 			// the first bytes to choose); besides the usual clients one connects and never sends a byte
 			det := r.Pick([]string{"http", "cwmp", "docker", "ssh-simulator"})
@@ -271,8 +274,14 @@ func genC01(seed uint64, idx int, tier string) *Scenario {
 // (so that the handlers get deep into their state), and a schedule in which most steps release several
 // deliveries before the system runs to quiescence: handlers of one step are unordered by happens-before, and
 // the race detector (vector clocks, GOMAXPROCS=1) reports conflicting accesses.  Only map-vs-map races count.
+// hostileOriginalOnly: the race tier keeps to the services on their own transport (its run budget is small and the
+// shared state it looks for lives in the handlers proper)
+var hostileOriginalOnly bool
+
 func genC01Race(r *Rng, idx int) *Scenario {
+	hostileOriginalOnly = true
 	sc := buildHostileScenario(r, idx, 4, []string{"close", "close", "never"})
+	hostileOriginalOnly = false
 	// keep the first service only, with at least two connections to it
 	first := ""
 	var actors []Actor
